@@ -1067,7 +1067,7 @@ class PandasModelBase(
         for c in common_cols:
             if c not in on_a_set:
                 is_null = res[c].isnull()
-                res.loc[is_null, c] = res.loc[is_null, c + "_tmp_right_col"]
+                res[c] = res[c].where(~is_null, res[c + "_tmp_right_col"])
                 res = res.drop(c + "_tmp_right_col", axis=1, inplace=False)
         self.drop_indices(res)
         return res
